@@ -5574,7 +5574,7 @@ class NetCDFRead(IORead):
             if attribute == "nodes":
                 # Check geometry node coordinate boounds (CF>=1.8)
                 cf_compliant = self._check_geometry_node_coordinates(
-                    parent_ncvar, bounds_ncvar, geometry
+                    parent_ncvar, bounds_ncvar, geometry, coord_ncvar=ncvar
                 )
             else:
                 # Check other type of bounds
@@ -7929,7 +7929,7 @@ class NetCDFRead(IORead):
         return ok
 
     def _check_geometry_node_coordinates(
-        self, field_ncvar, node_ncvar, geometry
+        self, field_ncvar, node_ncvar, geometry, coord_ncvar=None
     ):
         """Check a geometry node coordinate variable.
 
@@ -7945,6 +7945,13 @@ class NetCDFRead(IORead):
 
             geometry: `dict`
 
+            coord_ncvar: `str`, optional
+                The netCDF variable name of the coordinate variable
+                whose ``nodes`` attribute names the node coordinate
+                variable, if there is one. Any problem is filed under
+                it, so that it is also reported for every other data
+                variable that re-uses the coordinate construct.
+
         :Returns:
 
             `bool`
@@ -7953,6 +7960,9 @@ class NetCDFRead(IORead):
         g = self.read_vars
 
         geometry_ncvar = g["variable_geometry"].get(field_ncvar)
+
+        if coord_ncvar is None:
+            coord_ncvar = field_ncvar
 
         attribute = {
             field_ncvar
@@ -7969,7 +7979,7 @@ class NetCDFRead(IORead):
                 node_ncvar,
                 message=message,
                 attribute=attribute,
-                variable=field_ncvar,
+                variable=coord_ncvar,
             )
             return False
 
@@ -7984,7 +7994,7 @@ class NetCDFRead(IORead):
                     "not in node_coordinates",
                 ),
                 attribute=attribute,
-                variable=field_ncvar,
+                variable=coord_ncvar,
             )
             ok = False
 
